@@ -882,6 +882,90 @@ def _check_history(c, ob=None):
     return None
 
 
+
+# ------------------------------------------------------------------------------------------ histories of open_link calls on one Crazyflie
+OPEN_URIS = {
+    'KUnclaimed': ['bogus://0/80/2M', 'usb://zero', 'radio:/0/80', '', 'debug://0', 'RADIO://0/80/2M', 'serial://ttyUSB0'],
+    'KDriverRaises': ['radio://0/x/2M', 'radio://0/80/2M/E7E7E7E7E7E7', 'radio://nosuchserial/1', 'tcp://h:99999', 'radio://0/80?rate_limit=fast'],
+    'KGood': ['radio://0/80/2M', 'radio://0/10/250K/E7E7E7E701', 'usb://0'],
+}
+
+
+def gen_open_history(rng, i=99):
+    fixed = [[('KUnclaimed', 0), ('KUnclaimed', 1)], [('KUnclaimed', 1), ('KDriverRaises', 0)], [('KUnclaimed', 2), ('KGood', 0)],
+             [('KDriverRaises', 0), ('KUnclaimed', 0)], [('KGood', 0), ('KUnclaimed', 0), ('KDriverRaises', 1)]]
+    if i < len(fixed):
+        steps = [[k, OPEN_URIS[k][j], k == 'KGood'] for k, j in fixed[i]]
+    else:
+        steps = []
+        for _ in range(rng.randrange(2, 5)):
+            k = rng.choice(['KUnclaimed', 'KUnclaimed', 'KDriverRaises', 'KGood'])
+            steps.append([k, rng.choice(OPEN_URIS[k]), k == 'KGood' and rng.random() < 0.8])
+    return {'fn': 'open_history', 'steps': steps}
+
+
+def impl_open_history(c):
+    """2-4 open_link calls on ONE Crazyflie object (close_link after a call where asked); per call: the callbacks fired
+    during the call and whether an exception escaped."""
+    import logging
+    import cflib.crtp as crtp
+    from cflib.crazyflie import Crazyflie
+    world = _World()
+    old = list(crtp.CLASSES)
+    crtp.CLASSES[:] = _class_list(False)
+    cbs = []
+    out = []
+    logging.disable(logging.CRITICAL)
+    try:
+        with _patched(world):
+            cf = Crazyflie(rw_cache=None)
+            cf.connection_requested.add_callback(lambda u: cbs.append('CbRequested'))
+            cf.connection_failed.add_callback(lambda u, m: cbs.append('CbFailed'))
+            cf._start_connection_setup = lambda: None
+            cf.incoming.start = lambda: None
+            cf.incoming.is_alive = lambda: True
+            for kind, uri, close in c['steps']:
+                del cbs[:]
+                try:
+                    cf.open_link(uri)
+                    esc = None
+                except BaseException as e:  # noqa
+                    esc = type(e).__name__
+                out.append({'cbs': list(cbs), 'escaped': esc, 'linked': cf.link is not None})
+                if close:
+                    try:
+                        cf.commander.send_setpoint = lambda *a, **k: None
+                        cf.close_link()
+                    except Exception as e:  # noqa
+                        out[-1]['close_error'] = type(e).__name__
+    finally:
+        logging.disable(logging.NOTSET)
+        crtp.CLASSES[:] = old
+    return out
+
+
+def _open_history_term(c):
+    return 'open_history open_step CDisconnected [%s]' % '; '.join('(%s, %s)' % (k, coqrun.coq_bool(cl)) for k, _, cl in c['steps'])
+
+
+def _check_open_history(c, ob=None):
+    """Property text, per call of a history on one Crazyflie object: a URI that no driver claims, or that its driver
+    cannot parse, yields connection_requested + exactly one connection_failed and no escaping exception."""
+    ob = ob or impl_open_history(c)
+    for i, ((kind, uri, close), r) in enumerate(zip(c['steps'], ob)):
+        if r['escaped']:
+            return {'class': 'open_link_exception_escapes', 'case': c, 'expected': {'call': i, 'cbs': ['CbRequested', 'CbFailed']}, 'observed': r}
+        if kind != 'KGood' and r['cbs'] != ['CbRequested', 'CbFailed']:
+            return {'class': 'bad_uri_not_notified_after_earlier_open', 'case': c,
+                    'expected': {'call': i, 'uri': uri, 'cbs': ['CbRequested', 'CbFailed']}, 'observed': {'call': i, 'cbs': r['cbs']},
+                    'detail': 'every open_link with an unknown scheme / malformed URI must notify connection_failed, whatever '
+                              'was opened on this Crazyflie object before'}
+        if kind == 'KGood' and (r['cbs'] != ['CbRequested'] or not r['linked']):
+            return {'class': 'good_uri_not_opened_after_earlier_open', 'case': c, 'expected': {'call': i, 'cbs': ['CbRequested'], 'linked': True},
+                    'observed': {'call': i, 'cbs': r['cbs'], 'linked': r['linked']}}
+    return None
+
+
 # ------------------------------------------------------------------------------------------ tie
 def _in_scope_py(uri):
     return all(32 <= ord(c) <= 126 for c in uri)
@@ -1150,8 +1234,22 @@ def tie(ctx):
                             'case': {k: c[k] for k in ('fn', 'calls', 'uri')}, 'model': want, 'impl': got})
         elif len(c['calls']) >= 2:
             nontriv += 1
+    # ---- 8. histories of open_link calls on one Crazyflie object
+    ocases = [c for c in _corpus_cases() if c.get('fn') == 'open_history'] + [gen_open_history(rng, i) for i in range(ctx.scale(150, 2000))]
+    omodel = coqrun.eval_terms(HEADER, [_open_history_term(c) for c in ocases], tag='c20o', shard=100)
+    dist['open_history'] = 0
+    for c, mv in zip(ocases, omodel):
+        ob = impl_open_history(c)
+        dist['open_history'] += 1
+        want = [list(x) for x in mv]
+        got = [r['cbs'] if not r['escaped'] else ['escaped', r['escaped']] for r in ob]
+        if want != got:
+            if len(dis) < 44:
+                dis.append({'what': 'open_link history on one Crazyflie: callbacks per call differ', 'case': c, 'model': want, 'impl': got})
+        else:
+            nontriv += 1
     return {
-        'evaluations': sum(dist[k] for k in ('init_history', 'scan_selected', 'driver_fields', 'parse_wellformed', 'parse_mutated', 'parse_other_scheme', 'env_address', 'connect_calls', 'scan', 'dispatch')),
+        'evaluations': sum(dist[k] for k in ('open_history', 'init_history', 'scan_selected', 'driver_fields', 'parse_wellformed', 'parse_mutated', 'parse_other_scheme', 'env_address', 'connect_calls', 'scan', 'dispatch')),
         'distinct_nontrivial': nontriv,
         'rule': 'parse_uri on well-formed URIs (every channel 0..125, 3 rates, 1..10 hex digits in random case, numeric and '
                 'serial-number dongles with random serial lists, omitted suffixes, query options), 1-2 random edits of '
@@ -1379,6 +1477,9 @@ def oracle(ctx, deep=False):
         add(_check_scan(addr, found))
     for i in range(ctx.scale(150, 2000)):
         n += 1
+        add(_check_open_history(gen_open_history(rng, i)))
+    for i in range(ctx.scale(150, 2000)):
+        n += 1
         add(_check_history(gen_history_case(rng, i)))
     for c in [c for c in _corpus_cases() if c.get('fn') == 'scan_selected'] + \
             [gen_scan_selected(rng) for _ in range(ctx.scale(300, 4000) * (3 if deep else 1))]:
@@ -1433,6 +1534,8 @@ def replay(payload, ctx):
         if 'expect' in c:
             return _check_wellformed(c['uri'], c.get('serials', []), c['expect'])
         return None
+    if fn == 'open_history':
+        return _check_open_history(c)
     if fn == 'init_history':
         return _check_history(c)
     if fn == 'scan_selected':
